@@ -239,12 +239,12 @@ pub fn run(ctx: &mut Ctx) {
             Err(p) => {
                 ctx.case_line(&format!("locals {case} nparams={nparams} decls=- adds={}", show_nats(&add_codes)));
                 ctx.impl_line(&format!("locals {case} PANIC"));
-                ctx.fail("locals", case, "panic", &format!("path={path} {p}"));
+                ctx.fail("locals", case, "C14", "panic", &format!("path={path} {p}"));
             }
             Ok(Err(e)) => {
                 ctx.case_line(&format!("locals {case} nparams={nparams} decls=- adds={}", show_nats(&add_codes)));
                 ctx.impl_line(&format!("locals {case} ERR"));
-                ctx.fail("locals", case, "error", &format!("path={path} {e}"));
+                ctx.fail("locals", case, "C14", "error", &format!("path={path} {e}"));
             }
             Ok(Ok((decls, ids, out))) => {
                 let dstr: Vec<String> = decls.iter().map(|(c, t)| format!("{c}:{t}")).collect();
@@ -257,7 +257,7 @@ pub fn run(ctx: &mut Ctx) {
                     Ok(a) => a,
                     Err(e) => {
                         ctx.impl_line(&format!("locals {case} UNDECODABLE"));
-                        ctx.fail("locals", case, "output-undecodable", &e);
+                        ctx.fail("locals", case, "C14", "output-undecodable", &e);
                         continue;
                     }
                 };
@@ -302,7 +302,7 @@ pub fn run(ctx: &mut Ctx) {
                 }
                 match bad {
                     None => ctx.ok("locals", case),
-                    Some((sig, d)) => ctx.fail("locals", case, &sig, &format!("path={path} {d}")),
+                    Some((sig, d)) => ctx.fail("locals", case, "C14", &sig, &format!("path={path} {d}")),
                 }
             }
         }
